@@ -415,6 +415,7 @@ func TestC20(t *testing.T) {
 	defer rec.Flush(t)
 	o := gen.DefaultHistOpt(limits(), false)
 	o.BigBase = false
+	o.Scale = false
 	rapidCheck(t, func(rt *rapid.T) {
 		if rapid.IntRange(0, 2).Draw(rt, "part") == 0 {
 			c := drawE2E(rt, o)
